@@ -36,10 +36,12 @@ class Transfer:
             self.timeout = rng.choice([65535, 65536, 70000, 131072 + 5])     # the API takes a 32-bit timeout in ms
         nsteps = 1 if self.size <= 4 else 1 + (self.size + 6) // 7
         self.nsteps = nsteps
-        self.behaviour = rng.choice(["ok"] * 6 + ["abort", "abort", "silent", "late", "toggle", "mux", "kind", "early", "oversize", "race", "race"])
+        self.behaviour = rng.choice(["ok"] * 6 + ["abort", "abort", "silent", "late", "toggle", "mux", "kind", "early", "oversize", "race", "race", "nmtreset", "nosize", "stale-answer"])
         self.race_n = self.timeout + rng.choice([-1, 0, 0, 0, 1, 3])
         self.abort_code = rng.choice([0x06020000, 0x05040000, 0x05040000, 0x06010002, 0x08000000, 0x06070010, 0x05030000, 0x00000001, 0xFFFFFFFF])
         self.k = rng.randrange(nsteps)
+        if self.behaviour == "nosize" and not (self.up and self.size <= 4):
+            self.behaviour = "ok"
         if self.behaviour == "oversize" and self.size < 4 and self.up:
             self.behaviour = "exp-bigger"        # expedited answer carrying more bytes than the user buffer holds
         if self.behaviour == "oversize" and self.size > 4 and self.up and rng.random() < 0.5:
@@ -146,6 +148,35 @@ def run_sequence(res, exe, rng, first, forced=None):
                         resp = bytes([0x20 | (tog << 4)]) + bytes(7)
                         final_after = pos >= tr.size
                 expect_code = 0
+                if beh == "nmtreset":
+                    # reset communication while the transfer runs: it ends there - exactly one callback with an abort code, nothing left
+                    evs = sim.rx(0, bytes([130, nid]))
+                    cb = callbacks(evs)
+                    fr = [x for x in frames(evs) if x[1] != 0x700 + nid]
+                    if len(cb) != 1 or cb[0][3] == 0 or cb[0][1] != tr.idx or cb[0][2] != tr.sub:
+                        return fail("callback/reset-during-transfer", desc + ": reset communication at step %d: callbacks %r, reference exactly one with an abort code" % (step, cb))
+                    if any(c != TX for (_, c, d) in fr):
+                        return fail("request-frame/reset-during-transfer", desc + ": frames at the reset %r" % [("%x" % c, d.hex()) for _, c, d in fr])
+                    res.counters["resets_during_transfer"] += 1
+                    done = cb[0][3]
+                    break
+                if beh == "stale-answer" and step == 0:
+                    # the answer to an earlier (timed-out) request for another object arrives first: it is not the answer to this request
+                    other = mux(tr.idx ^ 0x10, (tr.sub + 1) & 0xFF)
+                    stale = (bytes([0x43]) + other + gen.rand_bytes(rng, 4)) if tr.up else (bytes([0x60]) + other + bytes(4))
+                    evs = sim.rx(RX, stale)
+                    cb0 = callbacks(evs)
+                    if cb0 and cb0[0][3] == 0:
+                        return fail("callback/stale-answer", desc + ": an answer that names %s completed the transfer with code 0" % other.hex())
+                    res.counters["stale_answers"] += 1
+                    if cb0:
+                        done = cb0[0][3]
+                        break
+                    if frames(evs):
+                        return fail("request-frame/stale-answer", desc + ": client reacted to a foreign answer with %r" % frames(evs))
+                if beh == "nosize" and step == 0:
+                    # a conforming expedited answer without size indication (e = 1, s = 0)
+                    resp = bytes([0x42]) + m3 + (tr.data + bytes(4))[:4]
                 if beh == "abort":
                     # any abort code a server may send, incl. the server's own protocol timeout 0504 0000h
                     ac = tr.abort_code
@@ -155,8 +186,19 @@ def run_sequence(res, exe, rng, first, forced=None):
                     resp = bytes([resp[0] ^ 0x10]) + resp[1:]
                     expect_code, final_after = "nonzero", True
                 elif beh == "mux" and step == 0 and tr.size > 4:
-                    resp = resp[:1] + mux(tr.idx ^ 1, tr.sub) + resp[4:]
-                    expect_code, final_after = "nonzero", True
+                    # an initiate answer that names another object: the client ends the transfer with an abort code, or takes the
+                    # frame for what it is - not the answer to its request - and runs into its timeout
+                    bad = resp[:1] + mux(tr.idx ^ 1, tr.sub) + resp[4:]
+                    evs = sim.rx(RX, bad)
+                    cb = callbacks(evs)
+                    if cb:
+                        if len(cb) != 1 or cb[0][3] == 0:
+                            return fail("callback/mux", desc + ": callbacks %r, reference one with a non-zero code" % cb)
+                        done = cb[0][3]
+                        break
+                    if frames(evs):
+                        return fail("request-frame/mux", desc + ": client continued after an answer for another object: %r" % frames(evs))
+                    beh = "silent"
                 elif beh == "mux":
                     beh = "ok"
                 elif beh == "kind":
